@@ -372,6 +372,31 @@ func c12NamesThatCollide(res *Result) {
 				Detail: "macro field(name, label) next to a macro label(text): the parameter label, unset or passed null, must be null in the body"})
 		}
 	}
+	// text in a macro body that looks like a print tag and is escaped: literal for every call form, parameters named like it or not
+	elib := "{% macro cell(name) %}<td data-bind=\"\\{{ name }}\">{{ name }}</td>{# c #}\\{{ item.title }}|\\{% if name %}{% endmacro %}"
+	ewant := "<td data-bind=\"{{ name }}\">qty</td>{{ item.title }}|{% if name %}"
+	for _, f := range []struct{ name, src string }{
+		{"local", elib + "{{ cell('qty') }}"}, {"self", elib + "{{ _self.cell('qty') }}"}, {"import", "{% import 'elib' as f %}{{ f.cell('qty') }}"},
+		{"from", "{% from 'elib' import cell %}{{ cell('qty') }}"}, {"from-alias", "{% from 'elib' import cell as c %}{{ c('qty') }}"},
+		{"in-loop", "{% from 'elib' import cell %}{% for i in [1] %}{{ cell('qty') }}{% endfor %}"},
+	} {
+		eng := twig.New()
+		eng.RegisterString("elib", elib)
+		res.Hist["stream:c12-names-that-collide"]++
+		res.Evaluations++
+		c := Case{"stream": "c12-names-that-collide", "scenario": "escaped delimiters in a macro body", "form": f.name, "tpl": f.src}
+		if err := eng.RegisterString("t", f.src); err != nil {
+			continue
+		}
+		got, err := eng.Render("t", map[string]interface{}{"item": map[string]interface{}{"title": "T"}})
+		if err != nil {
+			got = "error: " + err.Error()
+		}
+		if got != ewant {
+			res.add(Finding{Kind: "oracle", Where: "c12-names-that-collide/escaped-text/" + f.name, Case: c, Expected: ewant, Observed: got,
+				Detail: "escaped delimiters in the body of a macro are text; the macro's output differs from that text with the argument put in the one real print tag"})
+		}
+	}
 	// an included template imports under the includer's macro name
 	parts := map[string]string{
 		"lib":         "{% macro badge(t, n = 0) %}<span class=\"{{ n }}\">{{ t }}</span>{% endmacro %}{% macro other(t) %}({{ t }}){% endmacro %}",
